@@ -226,6 +226,7 @@ def search(ck, budget):
                                       replay_py=f"from chython import smiles; print(smiles({smi!r}) == smiles({mir!r}))")
     ck.extra['rdkit_agreements'] = n_ok
     search_stereogenic(ck, pool)
+    search_allenes(ck)
     # (3) labels are kept only on stereogenic centres
     for smi, keeps in (('C[C@](C)(F)Cl', False), ('C[C@H](C)F', False), ('C[C@H](N)F', True), ('F/C=C(/Cl)Cl', False),
                        ('F/C=C/Cl', True), ('CC(C)=[C@]=CC', False), ('C[C@@H]1CC1', False), ('C/C=C/C', True)):
@@ -292,6 +293,63 @@ def search_stereogenic(ck, pool):
             ck.counterexample(f'label-dropped:{smi}', 'the label of a stereogenic centre (kept by RDKit) is dropped on reading',
                               {'smiles': smi, 'family': family}, str(m), f'{kept_rd} label(s): {Chem.MolToSmiles(rd)}', 'RDKit',
                               replay_py=f"from chython import smiles; print(smiles({smi!r}))")
+
+
+def search_allenes(ck):
+    """allene spellings aC(b)=[C@]=C(c)d denote the same configuration exactly when their tetrahedral analogues a[C@](b)(c)d do
+    (OpenSMILES extended tetrahedral rule); RDKit judges the analogues and never sees an allene.  All spellings of one
+    configuration must give ONE chython canonical string / equal molecules, the two configurations different ones, and the
+    random-order output must read back as the same molecule."""
+    from chython import smiles
+    from rdkit import Chem
+    import itertools
+    for subs in (('C', 'F', 'Cl', 'Br'), ('C', 'F', 'C', 'Cl'), ('N', 'O', 'Cl', 'C'), ('C', 'F', '[H]', 'Cl'), ('C', '[H]', '[H]', 'Cl')):
+        groups = {}
+        left, right = subs[:2], subs[2:]
+        for l in itertools.permutations(left):
+            for r in itertools.permutations(right):
+                for mk in ('@', '@@'):
+                    for flip in (False, True):      # write the allene from either end
+                        a, b, c, d = (l + r) if not flip else (r + l)
+                        if a == '[H]':
+                            continue                 # a SMILES cannot start with a bare explicit H branch here
+                        al = f'{a}C({b})=[C{mk}]=C({c}){d}'
+                        th = f'{a}[C{mk}]({b})({c}){d}'
+                        rd = Chem.MolFromSmiles(th)
+                        if rd is None:
+                            continue
+                        key = Chem.MolToSmiles(rd)
+                        groups.setdefault(key, []).append(al)
+        if len(groups) != 2:
+            continue    # the analogue is not a stereocentre for RDKit (duplicate substituents): nothing to judge
+        canon = {}
+        for key, spellings in groups.items():
+            seen = {}
+            for al in spellings:
+                try:
+                    m = smiles(al)
+                except Exception as e:
+                    ck.counterexample(f'allene-raises:{al}', f'reading a stereo allene raises {type(e).__name__}', {'smiles': al}, repr(e), 'a molecule', 'OpenSMILES')
+                    continue
+                ck.case(('allene', al))
+                ck.count('allene spellings')
+                seen.setdefault(str(m), []).append(al)
+                back = smiles(format(m, 'r'))
+                if back != m:
+                    ck.counterexample(f'allene-respell:{al}', 'random-order SMILES of a stereo allene reads back as a different molecule',
+                                      {'smiles': al}, str(back), str(m), 'chython reader on chython writer output',
+                                      replay_py=f"from chython import smiles; m=smiles({al!r}); print(m, smiles(format(m,'r')))")
+            if len(seen) > 1:
+                ex = [v[0] for v in seen.values()][:2]
+                ck.counterexample(f'allene-spellings:{ex[0]}', 'equivalent spellings of one allene configuration give different canonical strings '
+                                  '(equivalence judged by RDKit on the tetrahedral analogues)', {'spellings': ex}, sorted(seen), 'one string',
+                                  'OpenSMILES extended tetrahedral rule + RDKit',
+                                  replay_py=f"from chython import smiles; print(smiles({ex[0]!r}), smiles({ex[1]!r}))")
+            canon[key] = set(seen)
+        ks = list(canon)
+        if len(ks) == 2 and canon[ks[0]] & canon[ks[1]]:
+            ck.counterexample(f'allene-enantiomers:{subs}', 'the two configurations of an allene share a canonical string', {'substituents': subs},
+                              sorted(canon[ks[0]] & canon[ks[1]]), 'different strings', 'OpenSMILES extended tetrahedral rule + RDKit')
 
 
 def spirane_like(rd):
